@@ -92,4 +92,6 @@ MUTANTS = [
          find='            bound_method = method.bind(params, context=context)\n        except validators.ValidationError as e:',
          replace='            bound_method = method.bind(params, context=context)\n            return bound_method()\n        except validators.ValidationError as e:',
          expect=['BIND-BEFORE-RUN', 'ONCE-INVOKE']),
+    dict(name='dup-check-skips-falsy-ids', file='pjrpc/common/v20.py', nth=1, find='            for id in ids:\n                if id is None:\n                    continue\n',
+         replace='            for id in filter(None, ids):\n', expect='DUP-CHECK'),
 ]
